@@ -108,7 +108,10 @@ func genCtx(t *rapid.T) Ctx {
 func gen(t *rapid.T) Case {
 	c := Case{}
 	n := rapid.IntRange(0, 5).Draw(t, "n")
-	if n > 3 && rapid.Bool().Draw(t, "fewer") {
+	if rapid.IntRange(0, 7).Draw(t, "many") == 0 {
+		// combined arrays get long: two-digit indexes
+		n = rapid.IntRange(9, 23).Draw(t, "nmany")
+	} else if n > 3 && rapid.Bool().Draw(t, "fewer") {
 		n = 2
 	}
 	for i := 0; i < n; i++ {
@@ -324,7 +327,7 @@ func tail(s string) string {
 	return s
 }
 
-const rule = "generated bash hooks that source the repository's shell_lib.sh (strict mode) and frameworks/shell, defining a generated subset of the documented handler names for the contexts in play (plus optionally __main__, always __config__), each handler logging name/index/current binding and returning a scripted status (a quarter of the successful handlers also read their standard input, which is /dev/null as under the operator); binding-context files with 0-5 contexts of every type (onStartup, Schedule, Synchronization, Event x3, Group, Validating, Mutating, Conversion with short/full versions), binding names from a pool incl. dots/dashes and, 1 in 12, names with spaces from the documentation; run by real bash+jq; oracle: Go reference dispatcher (first defined candidate most-to-least specific, else __main__; stop non-zero at first failing/undefined). Non-trivial: a context with >= 2 defined candidates, or a failing/undefined context that is not the last."
+const rule = "generated bash hooks that source the repository's shell_lib.sh (strict mode) and frameworks/shell, defining a generated subset of the documented handler names for the contexts in play (plus optionally __main__, always __config__), each handler logging name/index/current binding and returning a scripted status (a quarter of the successful handlers also read their standard input, which is /dev/null as under the operator); binding-context files with 0-5 contexts (1 in 8 files: 9-23 contexts) of every type (onStartup, Schedule, Synchronization, Event x3, Group, Validating, Mutating, Conversion with short/full versions), binding names from a pool incl. dots/dashes and, 1 in 12, names with spaces from the documentation; run by real bash+jq; oracle: Go reference dispatcher (first defined candidate most-to-least specific, else __main__; stop non-zero at first failing/undefined). Non-trivial: a context with >= 2 defined candidates, or a failing/undefined context that is not the last."
 
 func TestDispatch(t *testing.T) {
 	ev.Main(t, ev.Spec[Case]{Property: "C19", Part: "dispatch", Rule: rule, Gen: gen, Run: runCase})
